@@ -21,6 +21,7 @@ func (e *c43Env) opWriteDSN(name string, restricted bool) {
 		Database: e.dataFile, Restricted: restricted})
 	e.emit(fmt.Sprintf("W %s %s", verifh.Hex(name), c43B(restricted)), map[bool]string{true: "ok", false: "err"}[err == nil])
 	e.o.dsnR[name] = restricted
+	e.syncDSN("WriteDSN")
 }
 
 func (e *c43Env) opDeleteDSN(name string) {
@@ -36,6 +37,8 @@ func (e *c43Env) opDeleteDSN(name string) {
 			}
 		}
 	}
+
+	e.syncDSN("DeleteDSN")
 }
 
 func (e *c43Env) opRevokeAllDSN(name string) {
@@ -47,6 +50,8 @@ func (e *c43Env) opRevokeAllDSN(name string) {
 			delete(e.o.dsnA, p)
 		}
 	}
+
+	e.syncDSN("RevokeAllDSN")
 }
 
 func (e *c43Env) opGrantDSN(u, name string, mask int, grant bool) {
@@ -74,6 +79,8 @@ func (e *c43Env) opGrantDSN(u, name string, mask int, grant bool) {
 
 		e.o.dsnR[name] = true
 	}
+
+	e.syncDSN("GrantDSN")
 }
 
 // ---------------------------------------------------------------- queries
@@ -167,11 +174,11 @@ func (e *c43Env) qAuthDSN(u, name string, mask int) {
 	want := exists && (!restricted || e.o.dsnA[c43Pair{u, name}]&mask != 0)
 	if got != want {
 		class := "authdsn"
-		if c43PipeClass(u, name) {
+		if e.pipeClass(u, name) {
 			class = "dsn-key-pipe"
 		}
 
-		e.fail(class, fmt.Sprintf("AuthDSN(user=%q, dsn=%q, action=%d) disagrees with the recorded DSN grants", u, name, mask), c43B(got), c43B(want))
+		e.fail(class, fmt.Sprintf("AuthDSN(user=%q, dsn=%q, action=%d) disagrees with the recorded DSN grants (a DSN recorded as restricted admits exactly the users granted the action)", u, name, mask), c43B(got), c43B(want))
 	}
 }
 
@@ -259,7 +266,7 @@ func (e *c43Env) qRow(u string, admin bool, idmask int, op byte, d, t string) {
 		class := "row"
 		if strings.Contains(d, ".") {
 			class = "authorized-dsn-dot"
-		} else if c43PipeClass(u, d) {
+		} else if e.pipeClass(u, d) {
 			class = "dsn-key-pipe"
 		}
 
